@@ -256,40 +256,65 @@ impl<S: BuildHasher + Default + Clone + Send + Sync + 'static> ConcurrentSet
         Self: 'x;
 
     fn insert_element(&self, element: Self::Element) -> bool {
-        let read = self.0.read();
-        match &*read {
-            TieredStorage::Small(vec_lock) => {
-                let mut vec = vec_lock.write();
+        {
+            let read = self.0.read();
+            match &*read {
+                TieredStorage::Small(vec_lock) => {
+                    let mut vec = vec_lock.write();
 
-                // Upgrade to large storage if exceed threshold
-                if vec.len() == 32 {
-                    let large_set = DashSet::with_hasher(S::default());
+                    if vec.len() < 32 {
+                        if vec.contains(&element) {
+                            return false;
+                        }
 
-                    for item in vec.drain(..) {
-                        large_set.insert(item);
+                        vec.push(element);
+
+                        return true;
                     }
 
-                    let result = large_set.insert(element);
+                    // the small tier is full: upgrade below, under the
+                    // exclusive lock, so that no concurrent insertion can
+                    // land in (and no iteration can observe) a drained vector
+                }
 
-                    drop(vec);
-                    drop(read);
+                TieredStorage::Large(set) => return set.insert(element),
+            }
+        }
 
-                    *self.0.write() = TieredStorage::Large(large_set);
+        let mut write = self.0.write();
 
-                    result
-                } else {
+        // somebody else may have upgraded (or removed elements) in between
+        let large_set = match &mut *write {
+            TieredStorage::Small(vec_lock) => {
+                let vec = vec_lock.get_mut();
+
+                if vec.len() < 32 {
                     if vec.contains(&element) {
                         return false;
                     }
 
                     vec.push(element);
 
-                    true
+                    return true;
                 }
+
+                let large_set = DashSet::with_hasher(S::default());
+
+                for item in vec.drain(..) {
+                    large_set.insert(item);
+                }
+
+                large_set
             }
 
-            TieredStorage::Large(set) => set.insert(element),
-        }
+            TieredStorage::Large(set) => return set.insert(element),
+        };
+
+        let result = large_set.insert(element);
+
+        *write = TieredStorage::Large(large_set);
+
+        result
     }
 
     fn remove_element(&self, element: &Self::Element) -> bool {
